@@ -9,6 +9,7 @@
 package main
 
 import (
+	"bytes"
 	"context"
 	"encoding/json"
 	"fmt"
@@ -16,6 +17,7 @@ import (
 	"log"
 	"math"
 	"os"
+	"os/exec"
 	"path/filepath"
 	"reflect"
 	"sort"
@@ -561,6 +563,11 @@ func runMain(c *hlib.Ctx) *hlib.Run {
 	nested := s.Draw(2, "nested") == 0
 	byDir := s.Draw(2, "args-are-dirs") == 0
 	numTasks := []int{1, 2, 3, nfiles + 1, 1000}[s.Draw(5, "num-tasks")]
+	realRun := s.Draw(3, "also-run-real-binary") == 0
+	realBin := c.Args["realbin.identify_license"]
+	if _, err := os.Stat(realBin); err != nil {
+		realBin = ""
+	}
 	dir, paths, err := mkdirFiles(files, nested)
 	if dir != "" {
 		defer os.RemoveAll(dir)
@@ -654,12 +661,80 @@ func runMain(c *hlib.Ctx) *hlib.Run {
 			return out
 		}
 	}
-	// printed lines
+	if v := judgeOutput(stdout, exit, useJSON, jsonPath, includeText, files, paths, exp, out, args, unreadable); v != nil {
+		out.Violation = v
+		return out
+	}
+	// ---- the real binary, as an operating-system process (not simulated) ----
+	if realBin != "" && realRun {
+		rj := jsonPath + ".real"
+		defer os.Remove(rj)
+		rargs := append([]string(nil), args[1:]...)
+		for i, a := range rargs {
+			if strings.HasPrefix(a, "-json=") && useJSON {
+				rargs[i] = "-json=" + rj
+			}
+		}
+		fails := 0
+		var last *hlib.Violation
+		for try := 0; try < 3; try++ {
+			os.Remove(rj)
+			cmd := exec.Command(realBin, rargs...)
+			var so, se bytes.Buffer
+			cmd.Stdout, cmd.Stderr = &so, &se
+			err := cmd.Run()
+			rexit := 0
+			if ee, ok := err.(*exec.ExitError); ok {
+				rexit = ee.ExitCode()
+			} else if err != nil {
+				rexit = -1
+			}
+			out.Counters["real_binary_executions(not_simulated)"]++
+			v := judgeOutput(so.String(), rexit, useJSON, rj, includeText, files, paths, exp, out, args, unreadable)
+			if v == nil && strings.Contains(se.String(), "panic:") {
+				v = &hlib.Violation{Oracle: "no-panic", Class: "real-binary-panic", Message: "the real binary panicked:\n" + firstLines(se.String(), 30)}
+			}
+			if v == nil {
+				break
+			}
+			fails++
+			last = v
+		}
+		switch {
+		case fails == 3:
+			last.Class = "real-binary:" + last.Class
+			last.Message = "observed on the real binary run as an OS process (3 of 3 executions):\n" + last.Message
+			out.Violation = last
+		case fails > 0:
+			out.Counters["real_binary_flaky_failure(not_reported:not_replayable)"]++
+		}
+	}
+	return out
+}
+
+func firstLines(s string, n int) string {
+	l := strings.Split(s, "\n")
+	if len(l) > n {
+		l = l[:n]
+	}
+	return strings.Join(l, "\n")
+}
+
+// judgeOutput applies the output oracles to what one execution of the tool
+// printed, its exit status and its JSON file.
+func judgeOutput(stdout string, exit int, useJSON bool, jsonPath string, includeText bool, files []fileSpec, paths []string, exp map[string][]entry, out *hlib.Run, args []string, unreadable bool) *hlib.Violation {
 	var lines []string
 	for _, l := range strings.Split(stdout, "\n") {
 		if l != "" {
 			lines = append(lines, l)
 		}
+	}
+	if unreadable {
+		if len(lines) != 0 || exit == 0 {
+			return &hlib.Violation{Oracle: "exit-status", Class: fmt.Sprintf("unreadable-file:exit-%d-lines-%d", exit, len(lines)),
+				Message: fmt.Sprintf("one argument is a dangling symbolic link; the tool printed %d lines and exited with status %d", len(lines), exit)}
+		}
+		return nil
 	}
 	var want []string
 	for i := range files {
@@ -671,43 +746,31 @@ func runMain(c *hlib.Ctx) *hlib.Run {
 			want = append(want, fmt.Sprintf("%s %s (variant: %v, confidence: %v, start: %v, end: %v)", paths[i], name, e.Variant, math.Float64frombits(e.Conf), e.Start, e.End))
 		}
 	}
-	if unreadable {
-		// the tool gives up: nothing may be reported and the status must say so
-		if len(lines) != 0 || exit == 0 {
-			out.Violation = &hlib.Violation{Oracle: "exit-status", Class: fmt.Sprintf("unreadable-file:exit-%d-lines-%d", exit, len(lines)),
-				Message: fmt.Sprintf("one argument is a dangling symbolic link; the tool printed %d lines and exited with status %d", len(lines), exit)}
-		}
-		return out
-	}
 	gotSorted := append([]string(nil), lines...)
 	sort.Strings(gotSorted)
 	sort.Strings(want)
 	if strings.Join(gotSorted, "\n") != strings.Join(want, "\n") {
-		out.Violation = &hlib.Violation{Oracle: "printed-lines", Class: "stdout-differs-from-match:" + map[bool]string{true: "fewer", false: "other"}[len(gotSorted) < len(want)],
+		return &hlib.Violation{Oracle: "printed-lines", Class: "stdout-differs-from-match:" + map[bool]string{true: "fewer", false: "other"}[len(gotSorted) < len(want)],
 			Message: fmt.Sprintf("the tool printed\n%s\nbut Match on the files gives\n%s", indent(gotSorted), indent(want))}
-		return out
 	}
 	if (exit == 0) != (len(lines) > 0) {
-		out.Violation = &hlib.Violation{Oracle: "exit-status", Class: fmt.Sprintf("exit-status-%d-with-%s-lines", exit, map[bool]string{true: "some", false: "no"}[len(lines) > 0]),
-			Message: fmt.Sprintf("exit status %d but %d licenses were reported (argv %v; files %v)", exit, len(lines), args[1:9], fdesc)}
-		return out
+		return &hlib.Violation{Oracle: "exit-status", Class: fmt.Sprintf("exit-status-%d-with-%s-lines", exit, map[bool]string{true: "some", false: "no"}[len(lines) > 0]),
+			Message: fmt.Sprintf("exit status %d but %d licenses were reported (argv %v)", exit, len(lines), args[1:9])}
 	}
 	if useJSON && exit == 0 {
 		b, err := os.ReadFile(jsonPath)
 		if err != nil {
-			out.Violation = &hlib.Violation{Oracle: "json-text", Class: "json-not-written", Message: "exit status 0 but the JSON file was not written: " + err.Error()}
-			return out
+			return &hlib.Violation{Oracle: "json-text", Class: "json-not-written", Message: "exit status 0 but the JSON file was not written: " + err.Error()}
 		}
 		var jr results.JSONResult
 		if err := json.Unmarshal(b, &jr); err != nil {
-			out.Violation = &hlib.Violation{Oracle: "json-text", Class: "json-unparsable", Message: err.Error()}
-			return out
+			return &hlib.Violation{Oracle: "json-text", Class: "json-unparsable", Message: err.Error()}
 		}
 		if v := checkJSON(jr, nil, includeText, files, paths, exp, out, true); v != nil {
-			out.Violation = v
+			return v
 		}
 	}
-	return out
+	return nil
 }
 
 func indent(l []string) string {
